@@ -139,6 +139,18 @@ func (fr *FileReader) readNextBlock() (*Block, error) {
 	if err := blockHeader.Deserialize(headerBuf); err != nil {
 		return nil, err
 	}
+	// A block that extends past the end of the file is a torn tail: the process
+	// died (or the disk rejected the write) while this block was being appended.
+	// Everything before it is intact, so treat it as the end of the log instead
+	// of failing the whole load. Checking the size first also keeps a damaged
+	// header from forcing an allocation larger than the file itself.
+	info, err := fr.file.Stat()
+	if err != nil {
+		return nil, err
+	}
+	if int64(blockHeader.CompressedSize) > info.Size()-(offset+BlockHeaderSize) {
+		return nil, io.EOF
+	}
 	// Read compressed data
 	compressedData := make([]byte, blockHeader.CompressedSize)
 	if _, err := io.ReadFull(fr.file, compressedData); err != nil {
